@@ -18,13 +18,12 @@
    the limit (map entries cost one level, as in the code), unknown bytes a sequence of
    well-formed fields that the message type does not decode (unknown number, or known number
    with a rejected wire type; minimal tags on the table-driven path), all lengths below 2^64 --
-   with two restrictions, which make this a _partial theorem:
-     [grp_unknown]  a group-typed value (GROUP / DELIMITED field) must not itself carry unknown
-                    bytes (sub-messages inside it may): the proof of the unknown section does
-                    not yet cover the case where the end-group tag follows it;
-     [slow_groups]  on the reflection path ([slow] = true) group-typed fields are excluded: that
-                    path first scans the group with protowire.ConsumeGroup, which needs the
-                    wire-scanner completeness theorem for encoder output.
+   with one restriction, which makes this a _partial theorem:
+     [slow_groups]  on the reflection path ([slow] = true) group-typed fields (GROUP / DELIMITED)
+                    are excluded: that path first scans the group with protowire.ConsumeGroup,
+                    which needs the wire-scanner completeness theorem for encoder output.
+                    (On the table-driven path groups are covered, including unknown fields
+                    inside groups.)
    Everything else of the property text is covered: proto2/proto3/editions shapes (explicit,
    implicit, required presence), all 16 scalar kinds, packed and expanded lists, maps with
    scalar or message values, oneofs, nested and recursive messages, extensions (ordinary
